@@ -28,7 +28,7 @@ def run(ctx):
     bodies = [b for b, _ in seen.values() if not scopes.is_unsafe_codec(b) and b.crate == 'pilota']
     audited = load_table('audited_sites.json')
     audit.audit_bodies(rep, 'R09.a', sorted(bodies, key=lambda b: b.id), audited, list_all=ctx.get('list'))
-    rep.floor('R09.a', 150)
+    rep.floor('R09.a', 100)
     skippers.depth_budget(rep, 'R09.d', prog, include_unsafe=False)
     skippers.progress(rep, 'R09.g', prog)
     import invariants
